@@ -71,6 +71,14 @@ def strategy_(g):
             z = [rnd.uniform(0.0, 2 * s)]
         else:
             z = g.vec(n, s=s)
+        if g.choice([False, False, True]):
+            # a degenerate but legitimate start: every vertex at the identity ("no initial guess"), or - for the distance
+            # type edges - points separated along one axis only; many derivative entries are exactly zero there
+            if tag in ("dist", "range"):
+                ops = [{"k": k, "v": list(R.identity(k))} for k in kinds]
+                ops[1]["v"][0] = g.choice([1.0, 5.0, 100.0])
+            else:
+                ops = [{"k": k, "v": list(R.identity(k))} for k in kinds]
         case = {"shape": "edge", "tag": tag, "ops": ops, "z": z, "info": g.sym_matrix(n, max_cond=1e2, kind=g.choice(["spd", "ident"]))}
         # history: a second state for the vertices of the same edge object (after a chi2 query)
         case["ops_b"] = [g.pose(k, s=s) for k in kinds]
@@ -83,7 +91,7 @@ def strategy_(g):
         return case
     cond = g.choice([1.0, 1e2])
     nz = 0.05 / cond
-    case = GG.gen(g, bases=("se2", "se3", "r2", "r3"), n_pose=(3, 12), n_lm=(0, 3), n_loops=(0, 4), conds=(cond,), noise=(nz, nz), pert=(0.3, 0.3), features=("parallel", "reversed", "permute", "ids", "multifixed", "custom", "quat-signs"), custom_flavour="num")
+    case = GG.gen(g, bases=("se2", "se3", "r2", "r3"), n_pose=(3, 12), n_lm=(0, 3), n_loops=(0, 4), conds=(cond,), noise=(nz, nz), pert=(0.3, 0.3), features=("parallel", "reversed", "permute", "ids", "multifixed", "custom", "quat-signs", "pure-translation-steps"), custom_flavour="num")
     for e in case["edges"]:
         if e["t"] == "odo":
             e["t"], e["fl"] = "relpose", "num"
